@@ -1,6 +1,8 @@
 """C06 (ThrottleFuture: a queued future whose cancel() returned True is never handed to the delegate).  Scenario family and lockstep of C07 (p_c07) on the component machine; only the verdicts of that
 family's monitor that belong to this property count here; every history is still replayed on the component machine."""
 import p_c07 as base
+LINE_PREEMPT = False     # the Throttle monitor reconstructs queue / counter state from the ADJACENCY of log entries of one thread:
+#                          runs with line-level preemption (drive.py) would be misread by it
 
 PROP = "C06"
 MACHINE = base.MACHINE
